@@ -23,7 +23,7 @@
 (*   [t |-> "nulls", n]        array of n nulls (count-boundary cases)     *)
 (* plus format specific ones (ext, tag, undef, bson specials).             *)
 (***************************************************************************)
-EXTENDS Integers, Sequences, FiniteSets, TLC
+EXTENDS Integers, Sequences, FiniteSets, SequencesExt, TLC
 
 (***************************** values *************************************)
 Null      == [t |-> "null"]
@@ -45,11 +45,9 @@ Rev(s)   == [i \in 1..Len(s) |-> s[Len(s) + 1 - i]]
 RunMin == 8
 Rep(n, b) == IF n < RunMin THEN [i \in 1..n |-> b] ELSE << -n, b >>
 
-RECURSIVE RLenFrom(_, _)
-RLenFrom(s, i) == IF i > Len(s) THEN 0
-                  ELSE IF s[i] < 0 THEN (-s[i]) + RLenFrom(s, i + 2)
-                  ELSE 1 + RLenFrom(s, i + 1)
-RLen(s) == RLenFrom(s, 1)
+\* expanded length: a marker -n and the byte after it stand for n bytes (fold: TLC evaluates a recursive
+\* definition over a 100+ element state-level sequence pathologically slowly)
+RLen(s) == FoldLeft(LAMBDA acc, x : IF x < 0 THEN acc + (-x) - 1 ELSE acc + 1, 0, s)
 
 RECURSIVE Flat(_)
 Flat(ss) == IF Len(ss) = 0 THEN <<>> ELSE ss[1] \o Flat(Tail(ss))
